@@ -693,12 +693,39 @@ func ruleOWN(w *World, r *Report, o ownOpts) {
 			nst := 0
 			for _, b := range fn.Blocks {
 				for _, in := range b.Instrs {
-					st, ok := in.(*ssa.Store)
-					if !ok {
-						continue
-					}
-					ia, ok := st.Addr.(*ssa.IndexAddr)
-					if !ok || ia.X != ssa.Value(data) {
+					var st ssa.Instruction
+					if s0, ok := in.(*ssa.Store); ok {
+						ia, ok := s0.Addr.(*ssa.IndexAddr)
+						if !ok || ia.X != ssa.Value(data) {
+							continue
+						}
+						st = s0
+					} else if ci, ok := in.(ssa.CallInstruction); ok {
+						// a private helper that is handed data and stores rows into it
+						g := ci.Common().StaticCallee()
+						if g == nil || len(g.Blocks) == 0 || g == fn || !inRegion(fn, g) {
+							continue
+						}
+						writes := false
+						for pi, a := range ci.Common().Args {
+							if a != ssa.Value(data) || pi >= len(g.Params) {
+								continue
+							}
+							for _, gb := range g.Blocks {
+								for _, gi := range gb.Instrs {
+									if gs, ok := gi.(*ssa.Store); ok {
+										if gia, ok := gs.Addr.(*ssa.IndexAddr); ok && gia.X == ssa.Value(g.Params[pi]) {
+											writes = true
+										}
+									}
+								}
+							}
+						}
+						if !writes {
+							continue
+						}
+						st = in
+					} else {
 						continue
 					}
 					nst++
